@@ -222,8 +222,15 @@ func (r *Report) Violate(v Violation) {
 	fmt.Printf("VIOLATION property=%s replay=%s%s\n", r.Property, v.File, tail)
 }
 
+// BeforeWrite, if set, runs at the start of Write (the harness uses it to turn what its runaway-loop
+// guards have seen into violations).
+var BeforeWrite func(r *Report)
+
 // Write stores the report as <OutDir>/<property>.corr.json for the check driver to merge.
 func (r *Report) Write() error {
+	if BeforeWrite != nil {
+		BeforeWrite(r)
+	}
 	r.mu.Lock()
 	defer r.mu.Unlock()
 	r.WallS = time.Since(r.start).Seconds()
